@@ -44,6 +44,34 @@ def props_of(b):
     return out
 
 
+# exhaustive configurations of EmitterMC.tla per property: (cfg, depth quick, depth thorough, export depth quick, export depth thorough)
+MC = {
+    "C03": [("EmitterMC_widths.cfg", 4, 5, 3, 4)],
+    "C06": [("EmitterMC_labels.cfg", 5, 6, 4, 5)],
+    "C07": [("EmitterMC_widths.cfg", 4, 5, 3, 4)],
+    "C15": [("EmitterMC_listing.cfg", 4, 5, 3, 4)],
+    "C16": [("EmitterMC_clone.cfg", 3, 4, 3, 3)],
+    "C19": [("EmitterMC_cap.cfg", 4, 5, 3, 4)],
+}
+# named deviations (the repository's original behaviour) that each property's invariants must catch
+SELFCHECK = {
+    "C15": [("EmitterMC_listing.cfg", "db_bytecount", 3, ("ListingComplete", "ListingAddresses")),
+            ("EmitterMC_listing.cfg", "label_before_base", 3, ("ListingOrder",))],
+    "C16": [("EmitterMC_clone.cfg", "append_base", 3, ("CloneAppendEquivalent",))],
+}
+
+
+def cfg_text(name, depth, dev=None, export=False):
+    s = open(os.path.join(SPEC, name)).read()
+    import re
+    s = re.sub(r"Depth = \d+", "Depth = %d" % depth, s)
+    if dev:
+        s = s.replace("Dev = {}", 'Dev = {"%s"}' % dev)
+    if export:
+        s = s.replace("DoExport = FALSE", "DoExport = TRUE")
+    return s
+
+
 PROFILES = {
     "C03": [("decode", 1200, 6000), ("general", 150, 1500)],
     "C06": [("general", 400, 3000)],
@@ -52,6 +80,59 @@ PROFILES = {
     "C16": [("general", 400, 3000)],
     "C19": [("general", 400, 3000)],
 }
+
+
+def report(ck, prop, bads, where):
+    for b in bads:
+        if prop in props_of(b):
+            ev = b["ev"]
+            short = {k: (ev[k] if len(json.dumps(ev[k])) < 160 else json.dumps(ev[k])[:160] + "...") for k in ev}
+            ck.violation("%s chunk %d line %d: real Emitter disagrees with Emitter.tla on %s: %s" % (
+                where, b["chunk"], b["line"], ",".join(b["why"]), json.dumps(short)[:600]), b)
+
+
+def replay_scenarios(ck, vh, scen, nchunks, name):
+    """Run TLC-exported scenarios on the real emitter and validate the recorded log with EmitterTrace."""
+    import shutil
+    from vlib import scratch_dir, parallel
+    d = scratch_dir("vrep")
+    try:
+        nchunks = max(1, min(nchunks, len(scen) // 50 or 1))
+        parts = [scen[i::nchunks] for i in range(nchunks)]
+
+        def one(i):
+            def f():
+                sp = os.path.join(d, "s%d.ndjson" % i)
+                with open(sp, "w") as fh:
+                    for s in parts[i]:
+                        fh.write(json.dumps(s) + "\n")
+                tr = os.path.join(d, "t%d.ndjson" % i)
+                out, _ = run_vh(vh, ["emit", "run", sp, tr])
+                r = run_tlc("EmitterTrace", "EmitterTrace.cfg", workers=1, files={"emit.ndjson": tr}, heap="3g", timeout=5000)
+                if r.violated:
+                    raise Infra("EmitterTrace (%s) chunk %d: %s" % (name, i, r.violated))
+                return json.loads(out.strip().splitlines()[-1]), r
+            return f
+        res = parallel([one(i) for i in range(nchunks)], nthreads=8)
+        nev, bads = 0, []
+        tot_gen = tot_dis = 0
+        wall = 0.0
+        for i, (info, r) in enumerate(res):
+            nev += info["events"]
+            tot_gen += r.generated
+            tot_dis += r.distinct
+            wall = max(wall, r.wall)
+            for b in r.json_prints("BAD"):
+                b["chunk"] = i
+                bads.append(b)
+        ck.cov["states"] += tot_dis
+        ck.cov["transitions"] += tot_gen
+        ck.add_part(name, kind="tlc-trace", scenarios=len(scen), events=nev, chunks=nchunks, wall_s=round(wall, 1))
+        if scen:
+            ck.sample({"replayed_scenario": scen[len(scen) // 2]})
+        return nev, bads
+    finally:
+        shutil.rmtree(d, ignore_errors=True)
 
 
 def run(prop, tier, replay):
@@ -76,22 +157,46 @@ def run(prop, tier, replay):
     ck.add_part("method table", spec_methods=len(spec_methods), real_methods=len(real_methods),
                 missing_in_real=sorted(set(spec_methods) - real_methods))
 
+    # exhaustive model checking of the specification, and non-vacuity through the named deviations
+    for (cfg, dq, dt, eq, et) in MC[prop]:
+        r = run_tlc("EmitterMC", cfg_text(cfg, dt if thorough else dq), workers=16, heap="12g", timeout=5000)
+        if r.violated:
+            raise Infra("Emitter.tla violates its own invariant %s in %s" % (r.violated, cfg))
+        ck.add_tlc("EmitterMC " + cfg, r, "depth %d" % (dt if thorough else dq))
+    for (cfg, dev, depth, expect) in SELFCHECK.get(prop, []):
+        r = run_tlc("EmitterMC", cfg_text(cfg, depth, dev=dev), workers=16, heap="8g", timeout=3000)
+        if r.violated not in expect:
+            raise Infra("self-check: deviation %s not caught by %s (got %s)" % (dev, expect, r.violated))
+        ck.add_part("self-check deviation " + dev, kind="tlc", violated=r.violated)
+
     nchunks = 8 if not thorough else 16
     total_ev = 0
     total_sc = 0
+    # REPLAY: every maximal behaviour of the small-scope model is executed on the real emitter
+    for (cfg, dq, dt, eq, et) in MC[prop]:
+        r = run_tlc("EmitterMC", cfg_text(cfg, et if thorough else eq, export=True), workers=8, heap="8g", timeout=5000)
+        if r.violated:
+            raise Infra("export run violated " + r.violated)
+        scen = r.json_prints("BEH")
+        if not scen:
+            raise Infra("no behaviours exported from " + cfg)
+        extra = [{"m": "Hex", "a": []}, {"m": "Text", "a": []}, {"m": "Finalize", "a": []}, {"m": "Hex", "a": []}, {"m": "State", "a": []}]
+        if prop == "C07":
+            extra = [{"m": "Cpu", "a": []}]
+        for s in scen:
+            fin = any(c["m"] == "Finalize" for c in s["calls"])
+            s["calls"] = s["calls"] + ([x for x in extra if x["m"] != "Finalize"] if fin else extra)
+        nev, bads = replay_scenarios(ck, vh, scen, nchunks, "replay " + cfg)
+        total_ev += nev
+        total_sc += len(scen)
+        report(ck, prop, bads, "replay of %s" % cfg)
     for (profile, q, t) in PROFILES[prop]:
         per = q if not thorough else t
         nev, bads, samples = record_and_validate(ck, vh, ["emit", "random", profile], "EmitterTrace", "EmitterTrace.cfg",
                                                  "emit.ndjson", nchunks, per, heap="3g")
         total_ev += nev
         total_sc += nchunks * per
-        for b in bads:
-            ps = props_of(b)
-            if prop in ps:
-                ev = b["ev"]
-                short = {k: (ev[k] if len(json.dumps(ev[k])) < 160 else json.dumps(ev[k])[:160] + "...") for k in ev}
-                ck.violation("profile %s chunk %d line %d: real Emitter disagrees with Emitter.tla on %s: %s" % (
-                    profile, b["chunk"], b["line"], ",".join(b["why"]), json.dumps(short)[:600]), b)
+        report(ck, prop, bads, "profile " + profile)
         for e in samples:
             if len(ck.cov["samples"]) < 6 and e["k"] in ("call", "finalize", "hex", "cpu", "decode", "append"):
                 s = {k: e[k] for k in e if k in ("k", "m", "a", "refused", "bytes", "err", "which", "fetches", "pri", "id", "n", "addr", "flags")}
